@@ -423,6 +423,30 @@ def rule_ip(ck):
             if h is not None:
                 rets = [r for st in h.body for r in q.walk_local(st) if isinstance(r, ast.Return)]
                 ck.ob("C43.ip", fi, h, bool(rets) and all(q.is_const(r.value, False) for r in rets), "the %s handler answers False" % exc, construct="handler %s returns False" % exc)
+    # early rejections (before getaddrinfo decides): only inputs that are certainly not addresses may be turned away
+    LONGEST = "0000:0000:0000:0000:0000:ffff:255.255.255.255"   # 45 characters, a valid textual IPv6 address (RFC 4291 2.2 form 3)
+    pmf = q.parent_map(fi.node)
+    for st in [x for x in q.walk_body(fi.node) if isinstance(x, ast.If)]:
+        if q.enclosing_try_handlers(pmf, st) or any(isinstance(a, ast.ExceptHandler) for a in q.ancestors(pmf, st)):
+            continue
+        rej_body = len(st.body) == 1 and isinstance(st.body[0], ast.Return) and q.is_const(st.body[0].value, False)
+        if not rej_body:
+            continue
+        for atom in q.split_disj(st.test):
+            a2 = atom
+            neg = False
+            while isinstance(a2, ast.UnaryOp) and isinstance(a2.op, ast.Not):
+                a2, neg = a2.operand, not neg
+            txt = q.unparse(atom)
+            if (neg and q.dotted(a2) == ip) or txt in ("%s == ''" % ip, "len(%s) == 0" % ip):
+                ck.ob("C43.ip", fi, atom, True, "early rejection of the empty string")
+            elif isinstance(a2, ast.Compare) and not neg and isinstance(a2.ops[0], ast.In) and isinstance(a2.left, ast.Constant) and a2.left.value == "\x00" and q.dotted(a2.comparators[0]) == ip:
+                ck.ob("C43.ip", fi, atom, True, "early rejection of strings containing NUL")
+            elif isinstance(a2, ast.Compare) and not neg and len(a2.ops) == 1 and q.is_call(a2.left, "len") and q.dotted(a2.left.args[0]) == ip and isinstance(a2.comparators[0], ast.Constant) and type(a2.comparators[0].value) is int and isinstance(a2.ops[0], (ast.Gt, ast.GtE)):
+                nmax = a2.comparators[0].value - (1 if isinstance(a2.ops[0], ast.GtE) else 0)
+                ck.ob("C43.ip", fi, atom, len(LONGEST) <= nmax, "a length cut-off must not reject valid addresses: %r has %d characters and would be rejected by '%s'" % (LONGEST, len(LONGEST), txt) if len(LONGEST) > nmax else "length cut-off %d admits the longest textual address (45 characters)" % nmax)
+            else:
+                raise AnalysisError("C43.ip: early rejection '%s' in is_valid_ip is not a recognised kind (empty / NUL / length)" % txt)
     # early rejections return False
     for nd in fi.cfg.stmt_nodes(lambda nd: nd.kind == "stmt" and isinstance(nd.ast, ast.Return)):
         F = facts[nd.id]
@@ -576,6 +600,8 @@ def args_param(fi):
 
 
 def run(ck):
+    from ..x_resolve import install_prepared
+    install_prepared(ck, __file__)
     ck.rule("C43.rx", "each _ABNF pattern denotes exactly the RFC 9110/9112 language (automaton equivalence against an independently written reference)")
     ck.rule("C43.start-line", "start-line parsers: fullmatch of the whole line with the RFC language; groups map to fields; only after success; rejection = HTTPInputError")
     ck.rule("C43.sint", "SINT on the status code")
@@ -661,6 +687,7 @@ MUTANTS = [
     ("_parse_header: _parseparam called without the ';' prefix (StopIteration on '')", _h("_parse_header", replace_expr(lambda n: isinstance(n, ast.BinOp) and isinstance(n.left, ast.Constant) and n.left.value == ";", lambda n: n.right)), "C43.total"),
     ("_unquote_sub: octal escape up to \\777 (chr fine, but 4-digit variant overflows) -> [0-7]{3,}", _module_assign(HU, "_unquote_sub", "re.compile(r'\\\\(?:([0-7]{3,})|(.))').sub"), "C43.total"),
     ("split_host_and_port: raises on a missing port", _h("split_host_and_port", replace_stmt(lambda st: isinstance(st, ast.Assign) and "netloc" in _src(st.value) and "host" in _src(st.targets[0]) and not isinstance(st.value, ast.Call), lambda st: [parse_stmt("raise ValueError('no port in %r' % netloc)")])), "C43.total"),
+    ("seeded C43-adv3: is_valid_ip rejects everything longer than 39 characters (IPv4-mapped full forms are 45)", _h("is_valid_ip", lambda root: _add_len_guard(root, 39), NU), "C43.ip"),
     ("is_valid_ip: NUL test dropped", _h("is_valid_ip", replace_expr(lambda n: isinstance(n, ast.BoolOp) and "x00" in _src(n), lambda n: n.values[0]), NU), "C43.ip"),
     ("is_valid_ip: empty-string test dropped", _h("is_valid_ip", replace_expr(lambda n: isinstance(n, ast.BoolOp) and "x00" in _src(n), lambda n: n.values[1]), NU), "C43.ip"),
     ("is_valid_ip: AI_NUMERICHOST dropped (host names resolve and are accepted)", _h("is_valid_ip", replace_expr(lambda n: isinstance(n, ast.Attribute) and n.attr == "AI_NUMERICHOST", lambda n: ast.Constant(value=0)), NU), "C43.ip"),
@@ -702,3 +729,11 @@ def _unwrap_try_int(root):
                         body[i:i + 1] = st.body
                         return True
     return False
+
+
+def _add_len_guard(root, n):
+    i = 0
+    if root.body and isinstance(root.body[0], ast.Expr) and isinstance(root.body[0].value, ast.Constant):
+        i = 1
+    root.body.insert(i + 1, parse_stmt("if len(ip) > %d:\n    return False" % n))
+    return True
